@@ -171,6 +171,12 @@ func HarnessDriver() Driver {
 			}
 			return hLog{w}, nil
 		},
+		GenRejected: func(rng *rand.Rand, id, epoch uint64) Ent {
+			// more tags than the encoder admits: MarshalCBOR emits the array header, epoch and
+			// sequence number and then fails
+			h := HEntry{Epoch: epoch, Seq: id, Tags: make([]uint64, hMaxTags+1+rng.Intn(8))}
+			return Ent{Epoch: epoch, ID: id, Raw: []byte("rejected"), Obj: h}
+		},
 		Gen: func(rng *rand.Rand, id, epoch uint64, size int) Ent {
 			h := HEntry{Epoch: epoch, Seq: id}
 			// tags: vary the number and the header widths of the integers
